@@ -7,7 +7,7 @@ import math
 from lib import common
 from lib.common import Corr
 
-RULE = ("jacobi: every odd n in [3, 2000) x a in [-n-2, 2n+2] (quick: a stride sample of n) + even/small n (assertions) + curve "
+RULE = ("call sequences (same a / changing m, same m / changing a, interleaved jacobi-sqrt-inverse) each result against the oracle; jacobi on odd composite n >= 2^160 with known factorisation (p*q, p*q*r, p^2, p^3, Carmichael-like, 3*p_curve); jacobi: every odd n in [3, 2000) x a in [-n-2, 2n+2] (quick: a stride sample of n) + even/small n (assertions) + curve "
         "primes/orders with random a; sqrt: every prime p < 2000 x all a (quick: every prime < 400 and all p = 1 mod 8 below 2000 with a "
         "sample of a), the 34 curve primes and orders with residues and non-residues, out-of-range a, p = 2, composite-free; "
         "inverse_mod: m in [-6, 200) x a in [-2m-1, 2m+1], large m with negative/zero/oversized a, non-coprime pairs, m = 0, 1, -1; "
@@ -210,6 +210,148 @@ def check_sqrt(nt, a, p, is_res):
     return None
 
 
+# ------------------------------------------------------------------------------------------------
+# history-dependent and large-composite searches (round-2 seeded defects C15-mut10-1, C15-mut10-2)
+_MR_BASES = (2, 3, 5, 7, 11, 13, 17, 19, 23, 29, 31, 37, 41, 43, 47, 53, 59, 61, 67, 71, 73, 79, 83, 89, 97, 101, 103, 107, 109, 113)
+
+
+def _is_prime(n):
+    """independent strong-probable-prime test to 30 bases (used only to BUILD moduli with a known factorisation)"""
+    if n < 2:
+        return False
+    for q in _MR_BASES:
+        if n % q == 0:
+            return n == q
+    d, s = n - 1, 0
+    while d % 2 == 0:
+        d //= 2
+        s += 1
+    for a in _MR_BASES:
+        x = pow(a, d, n)
+        if x in (1, n - 1):
+            continue
+        for _ in range(s - 1):
+            x = x * x % n
+            if x == n - 1:
+                break
+        else:
+            return False
+    return True
+
+
+def _rand_prime(rng, bits):
+    while True:
+        p = rng.getrandbits(bits) | (1 << (bits - 1)) | 1
+        if _is_prime(p):
+            return p
+
+
+def run_sequence(nt, calls):
+    """calls: list of [fn, x, y]; every result is compared with the oracle; returns the first bad record or None.
+    The WHOLE sequence is the input: a defect may depend on the calls made before."""
+    for i, (fn, x, y) in enumerate(calls):
+        if fn == "inverse_mod":
+            b = check_inverse(nt, x, y) if math.gcd(x, y) == 1 and y >= 1 else None
+        elif fn == "jacobi":
+            b = check_jacobi(nt, x, y, [y])          # the moduli of the sequences are primes
+        else:
+            is_res = (x % y == 0) or pow(x, (y - 1) // 2, y) == 1
+            b = check_sqrt(nt, x, y, is_res)
+        if b:
+            b = dict(b)
+            b["step"] = i
+            return b
+    return None
+
+
+def sequence_cases(ctx):
+    rng = ctx.rng
+    small_p = [5, 7, 11, 13, 17, 29, 37, 41, 97, 101, 1009, 10007, 2 ** 61 - 1]
+    seqs = []
+    # same a, changing m
+    for a in [2, 3, 5, 6, 7, 10, -3, -7, 12345, 2 ** 70 + 1, rng.getrandbits(90) | 1]:
+        ms = [m for m in small_p + [9, 25, 49, 2 ** 64, 10 ** 18 + 9] if math.gcd(a, m) == 1]
+        rng.shuffle(ms)
+        seqs.append([["inverse_mod", a, m] for m in ms[:6]])
+    # same m, changing a (and back)
+    for m in [7, 97, 2 ** 61 - 1, 2 ** 64]:
+        xs = [a for a in [2, 3, 5, 2, 3, -2, 2, m + 2, 2, 3 * m + 2] if math.gcd(a, m) == 1]
+        seqs.append([["inverse_mod", a, m] for a in xs])
+    # interleaved jacobi / sqrt / inverse on shared arguments
+    from ecdsa.curves import curves
+    mods = [17, 29, 41, 97, 1009] + [cv.curve.p() for cv in curves[:4 if ctx.quick else len(curves)]]
+    for _ in range(12 if ctx.quick else 80):
+        p1, p2 = rng.choice(mods), rng.choice(mods)
+        a = rng.randrange(2, min(p1, p2))
+        x = rng.randrange(1, p1)
+        seq = [["inverse_mod", a, p1], ["jacobi", a, p2], ["sqrt", x * x % p1, p1], ["inverse_mod", a, p2],
+               ["jacobi", x, p1], ["inverse_mod", x, p2] if math.gcd(x, p2) == 1 else ["jacobi", x, p2],
+               ["sqrt", a * a % p2, p2], ["inverse_mod", a, p1], ["inverse_mod", a, p2]]
+        seqs.append(seq)
+    return seqs
+
+
+def big_composites(ctx):
+    """odd composite n >= 2^160 with KNOWN factorisation: (n, factors)"""
+    rng = ctx.rng
+    out = []
+    for _ in range(4 if ctx.quick else 25):
+        bits = rng.choice([80, 96, 110, 130])
+        p, q = _rand_prime(rng, bits), _rand_prime(rng, bits + rng.choice([1, 3, 17]))
+        out.append((p * q, [p, q]))
+    for _ in range(2 if ctx.quick else 10):
+        p, q, r = (_rand_prime(rng, b) for b in (60, 70, 81))
+        out.append((p * q * r, [p, q, r]))
+    for _ in range(2 if ctx.quick else 8):
+        p = _rand_prime(rng, 85)
+        out.append((p * p, [p, p]))
+        out.append((p ** 3, [p, p, p]))
+    # Carmichael-like (6k+1)(12k+1)(18k+1) with all three prime
+    found = 0
+    k = rng.getrandbits(56)
+    while found < (1 if ctx.quick else 4):
+        k += 1
+        f = [6 * k + 1, 12 * k + 1, 18 * k + 1]
+        if all(_is_prime(x) for x in f):
+            out.append((f[0] * f[1] * f[2], f))
+            found += 1
+    # prime field * small prime, and the named field primes times 3
+    from ecdsa.curves import curves
+    for cv in curves[:3 if ctx.quick else len(curves)]:
+        p = cv.curve.p()
+        if p.bit_length() >= 158:
+            out.append((3 * p, [3, p]))
+    return [(n, f) for (n, f) in out if n.bit_length() > 160]
+
+
+def search_round2(ctx, nt):
+    n_eval = 0
+    # call sequences
+    for seq in sequence_cases(ctx):
+        n_eval += len(seq)
+        b = run_sequence(nt, seq)
+        ctx.hist("search", "sequence")
+        if b:
+            ctx.violation({"input": {"fn": "sequence", "calls": seq, "step": b["step"]}, "observed": b["got"], "expected": b["expected"]})
+            if len(ctx.violations) >= 4:
+                break
+    # Jacobi symbol for large composite moduli = product of Legendre symbols over the known factorisation
+    for n, f in big_composites(ctx):
+        avals = [2, 3, 5, -1, n - 1, n + 2, f[0], 2 * f[-1], f[0] + 1] + [ctx.rng.getrandbits(ctx.rng.choice([20, 170, 300])) * ctx.rng.choice([1, -1]) for _ in range(8 if ctx.quick else 30)]
+        # structured: squares (symbol 1 or 0) and non-residues modulo exactly one factor
+        x = ctx.rng.randrange(2, n)
+        avals += [x * x % n, x * x]
+        for a in avals:
+            n_eval += 1
+            ctx.hist("search", "jacobi.bigcomposite")
+            b = check_jacobi(nt, a, n, f)
+            if b:
+                rec = {"input": {"fn": "jacobi", "a": a, "n": n, "factors": f}, "observed": b["got"], "expected": b["expected"]}
+                ctx.violation(rec)
+                break
+    return n_eval
+
+
 def search(ctx):
     from ecdsa import numbertheory as nt
     rng = ctx.rng
@@ -281,6 +423,7 @@ def search(ctx):
                 if b:
                     viol(b)
     ctx.hist("search", "sqrt", n_eval - k0)
+    n_eval += search_round2(ctx, nt)
     ctx.cov["search_evaluations"] = n_eval
 
 
@@ -290,6 +433,10 @@ def replay(rec):
     fn = i.get("fn")
     if fn == "inverse_mod":
         return check_inverse(nt, int(i["a"]), int(i["m"])) is not None
+    if fn == "sequence":
+        return run_sequence(nt, [[c[0], int(c[1]), int(c[2])] for c in i["calls"]]) is not None
+    if fn == "jacobi" and i.get("factors"):
+        return check_jacobi(nt, int(i["a"]), int(i["n"]), [int(q) for q in i["factors"]]) is not None
     if fn == "jacobi":
         return check_jacobi(nt, int(i["a"]), int(i["n"])) is not None
     if fn == "sqrt":
